@@ -1,11 +1,11 @@
 //! C18 — Evaluation is pure: same answer across calls, clones and threads.
 //!
 //! (A) operation histories, sequential, on the real code: every sequence of length ≤ 3 (quick) /
-//! ≤ 4 (thorough) over an alphabet of 15 operations chosen to collide on the same lazily built
+//! ≤ 4 (thorough) over an alphabet of 16 operations chosen to collide on the same lazily built
 //! tables and shared `Arc`s is executed in one process; every observation must equal the
 //! reference observation of that operation executed **alone in a fresh process**. Because a lazy
 //! table can be first-used only once per process, every permutation of the 6 first-use operations
-//! (720; quick: every 3rd) runs in its own subprocess, followed by all 15 operations.
+//! (720; quick: every 3rd) runs in its own subprocess, followed by all 16 operations.
 //! (B) thread interleavings of first use under loom (hook H2, engine-loom crate run by drivers/c18.py):
 //! every thread's observation in every explored execution equals the sequential reference.
 
@@ -20,7 +20,7 @@ use serde_json::{json, Value};
 use std::collections::{BTreeMap, BTreeSet};
 use std::process::Command;
 
-pub const N_OPS: usize = 15;
+pub const N_OPS: usize = 16;
 pub const FIRST_USE: [usize; 6] = [0, 3, 5, 6, 7, 8];
 
 /// Every evaluating operation starts and ends with the same calls at 2024-07-14 12:00, so that a
@@ -140,7 +140,13 @@ pub fn op(i: usize) -> String {
             render_tz(&oh, tz, &[tz.with_ymd_and_hms(2024, 6, 21, 6, 30, 0).unwrap()])
         }
         13 => render_naive(&shared().clone().with_context(Context::default().with_holidays(Country::FR.holidays())), &t1[..2]),
-        _ => render_naive(&shared().clone().with_context(Context::default().with_holidays(Country::US.holidays())), &t1[..2]),
+        14 => render_naive(&shared().clone().with_context(Context::default().with_holidays(Country::US.holidays())), &t1[..2]),
+        // an Easter with an explicit year, at the instants of operation 8 (year-less Easter): a memo
+        // of Easter dates keyed on too little is forced to collide (a seeded change needed this)
+        _ => {
+            let oh = OpeningHours::parse("2025 easter -1 day-2025 easter +1 day").unwrap();
+            render_naive(&oh, &[dt(2024, 3, 30, 12, 0), dt(2025, 4, 19, 23, 59)])
+        }
     }
 }
 
@@ -341,7 +347,7 @@ pub fn run(cfg: &Cfg) -> Outcome {
     o.cov("history_depth", json!(depth));
     o.cov("loom", loom_cov);
     o.cov("distinct_observed_outcomes_per_operation", json!(distinct));
-    o.cov("rule", json!("explicit enumeration of operation histories on the real code: every sequence of length ≤ depth over the 15-operation alphabet executed in one process (process-wide lazy tables persist across histories), every permutation of the 6 first-use operations (quick: every 3rd of 720) in its own subprocess followed by all 15 operations; oracle: the observation (state, next_change, schedule, first 5 intervals / table summaries rendered to text) of each operation executed alone in a fresh process. (B) loom: 2–4 threads each running 1–3 operations that first-use the holiday / boundary / zone tables through the cfg-switched LazyLock facade, all interleavings up to the preemption bound (3 quick, 5 thorough), loom's Lazy also letting racing threads both run the initialiser. states = histories + permutations + loom executions, transitions = operations compared. The expected result is exactly one distinct outcome per operation (collisions are forced by the construction of the alphabet, not inferred from the count)"));
+    o.cov("rule", json!("explicit enumeration of operation histories on the real code: every sequence of length ≤ depth over the 16-operation alphabet executed in one process (process-wide lazy tables persist across histories), every permutation of the 6 first-use operations (quick: every 3rd of 720) in its own subprocess followed by all 16 operations; oracle: the observation (state, next_change, schedule, first 5 intervals / table summaries rendered to text) of each operation executed alone in a fresh process. (B) loom: 2–4 threads each running 1–3 operations that first-use the holiday / boundary / zone tables through the cfg-switched LazyLock facade, all interleavings up to the preemption bound (3 quick, 5 thorough), loom's Lazy also letting racing threads both run the initialiser. states = histories + permutations + loom executions, transitions = operations compared. The expected result is exactly one distinct outcome per operation (collisions are forced by the construction of the alphabet, not inferred from the count)"));
     o.assume("thread-level interleavings of first use are explored by the loom harness (engine-loom, merged into this evidence by drivers/c18.py); plain memory accesses outside the LazyLock seam are outside any controlled scheduler here — the free-running 8-thread pass is a smoke test, not coverage");
     o
 }
